@@ -294,7 +294,7 @@ def run_shape(ctx, rng, r):
         with monitors.MEMBERS as tr:
             d.parse_stream(s)
             events = [list(e) for e in tr.events]
-    except Exception:
+    except (Exception, monitors.TraceOverflow):
         ctx.count("canonical_not_parseable")
         monitors.MEMBERS.clock = None
         return
